@@ -30,7 +30,7 @@ The model follows the code as fixed by cb98646 (a superseded duplicate `'x 0'` i
 `isVisible` requires the object to be its parent's `contents` entry), aaed9bd (`taglink` renders the plain
 label when the target is not visible: `taglinkGuard`), 4b6324b (the index pages skip hidden roots), f972163 (`reparent` refreshes the linker's page), a09aa28 (`IndexPage`
 also when no root is visible), 5201211 (no root alias over a summary page), a3977d7 (none for a hidden root), fb55ab8 (undoccedSummary marker), 1da744b (`format_docstring` renders under
-`switch_context(obj)`), 97be2c0 (`findRootClasses` appends a root class to the list already stored under
+`switch_context(obj)`), 0ff33e4 (also the late-formatted `@see`/`@note`/`@author`/`@since` fields: row `fieldXref`), 97be2c0 (`findRootClasses` appends a root class to the list already stored under
 its name), 07382d3 (`reparent` updates `parentMod` of what is inside a moved class; `modul` is input).
 `requests s` = every `taglink` call / listing entry the page code makes; `emits s` = what is left of them
 after the guard. The pre-fix transcriptions live at the end of the file as `…Old` definitions, used only
@@ -43,7 +43,7 @@ Python recurse for ever.
 
 Not modelled (noted in notes/C11.md): the compact module list of `moduleSummary` (> 50 submodules),
 letter anchors of nameIndex.html, docstring tables of contents, what docutils writes inside a docstring
-(footnotes: c3f754a, 7e81765 are covered by the crawl oracle only), zope.interface rows, `extra_info` other
+(footnotes: c3f754a, 7e81765, internal references in summaries: fdcff94 are covered by the crawl oracle only), zope.interface rows, `extra_info` other
 than the constructor note, `--html-subject`.
 -/
 import PdModel.Privacy
@@ -398,18 +398,17 @@ def docLinks (s : Sys) (page : File) (o : Nat) : List Emit :=
     | none => []
     | some op => (s.ob o).xrefs.map (link .docXref page (some (pageFile s op)))
 
-/-- links of the `@see` / `@note` / `@author` / `@since` fields of the displayed docstring of `o`:
-`format_docstring` calls `fh.format()` *after* its `with source.docstring_linker.switch_context(obj)` blocks
-have exited, and only then are the bodies of these fields turned into HTML (`format_field_list` ->
-`Field.format()`), with the page object the source's linker remembers (`docCtx`): for an inherited docstring
-that is the page of the base class. -/
+/-- links of the `@see` / `@note` / `@author` / `@since` fields of the displayed docstring of `o`: the bodies of
+these fields are only turned into HTML in `FieldHandler.format()` (`format_field_list` -> `Field.format()`);
+since 0ff33e4 `format_docstring` makes that call under `source.docstring_linker.switch_context(obj)` too, so
+the shortening is relative to `obj.page_object` like for the rest of the docstring. -/
 def lateLinks (s : Sys) (page : File) (o : Nat) : List Emit :=
   match (s.ob o).docSource with
   | none => []
   | some _ =>
-    match (s.ob o).docCtx with
-    | none => (s.ob o).laterefs.map (link .fieldXref page none)
-    | some sp => (s.ob o).laterefs.map (link .fieldXref page (some (pageFile s sp)))
+    match pageObject s o with
+    | none => []
+    | some op => (s.ob o).laterefs.map (link .fieldXref page (some (pageFile s op)))
 
 /-- `_AnnotationLinker.link_to`: `switch_context(self._obj)` -/
 def annLinks (s : Sys) (page : File) (o : Nat) : List Emit :=
@@ -829,6 +828,16 @@ visibility test (after aaed9bd the row of a hidden root was written with its nam
 def rootRowsOld (s : Sys) : List Emit :=
   (s.roots.flatMap (moduleSummary s s.n true)
     ++ (if (rootNames s).length > 1 then s.roots.map (link .indexRoots .index (some .index)) else [])).filterMap (taglinkGuard s)
+
+/-- `lateLinks` before 0ff33e4: `fh.format()` was called after the `switch_context(obj)` blocks had exited, with
+the page object the source's linker remembers (`docCtx`): for an inherited docstring the page of the base class -/
+def lateLinksOld (s : Sys) (page : File) (o : Nat) : List Emit :=
+  match (s.ob o).docSource with
+  | none => []
+  | some _ =>
+    match (s.ob o).docCtx with
+    | none => (s.ob o).laterefs.map (link .fieldXref page none)
+    | some sp => (s.ob o).laterefs.map (link .fieldXref page (some (pageFile s sp)))
 
 /-- `valLinks` before f972163: the linker kept the page object it was created with (`ownCtx`), for a
 re-exported function the page of the module it was defined in -/
